@@ -209,7 +209,7 @@ def minimise(chk, case, switches, prop, oracle, budget_runs=1500, budget_s=90):
 
     def explicit(c, sw, strict=False):
         c = json.loads(json.dumps(c))
-        c['sched'] = {'switches': [list(x) for x in sw], 'strict': strict}
+        c['sched'] = dict(c.get('sched') or {}, switches=[list(x) for x in sw], strict=strict)
         return c
 
     cur = explicit(case, switches)
@@ -400,7 +400,7 @@ def run_check(prop, tier, verif_seed, nproc=None, max_wall=None, quiet=False):
         if res is None:
             # fall back to the unminimised case under its recorded switches
             c2 = json.loads(json.dumps(case))
-            c2['sched'] = {'switches': [list(x) for x in switches], 'strict': True}
+            c2['sched'] = dict(c2.get('sched') or {}, switches=[list(x) for x in switches or ()], strict=True)
             rr = chk.run_case(c2)
             if not _same(rr['violations'], p, oracle):
                 errors.append(f'violation {p}/{oracle} at {bname}#{i} did not reproduce under its recorded schedule')
